@@ -70,6 +70,14 @@ CHECKS.update({
          'Messages are generated as plain TL-B values by the declarative reference interpreter; (A) MessageAny.serialize must succeed whenever at least one of the four init/body placements fits a cell, (B) the produced cell must decode under the independent schema reading to the same logical message, (C) MessageAny.deserialize must return the same message from the library-produced cell and from every other valid placement encoded by the reference. Same scheme for StateInit, CurrencyCollection, ExtraCurrencyCollection, wallet v3/v4/highload data, NFT item data and HashUpdate. Self-consistent writer/reader errors are caught by the independent decoder.',
          'Trusts harness/ref/reftlb.py + tlb_msg.py (self-checked on hand-assembled bit strings), refdict/refcell. addr_var, relaxed headers and exotic body/init cells are outside the domain (no library API).', '§6 C15'),
 })
+CHECKS.update({
+ 'C07': ('model-based programs-as-cases (store sequences with arguments drawn relative to the remaining capacity: exact fit / one too many / one fewer) + exhaustive range grid (every width x first out-of-range values x fill levels) + exhaustive read-bound grid (every remaining length 0..1023 x 10 slice routes x every consuming read: largest in-bounds and smallest over-read request)',
+         'A model of the exact bit string and reference depths decides for every step of a generated builder program whether the store fits and the value is in range: then it MUST succeed and leave exactly the model content, otherwise it MUST raise; after every step the 1023-bit / 4-reference / depth-1023 limits and end_cell() are checked (children of depth 1022/1023 included; partly consumed slices judged on what remains). Every consuming read on slices from every route (builder, parsed BoC, plain-bitarray cell, copies, partial consumption) must raise when it asks for more than remains and return exactly the model data otherwise.',
+         'Trusts harness/ref/refbits.py writers and the capacity arithmetic of the model (TL-B sizes). Atomicity of refused composite stores, preload over-reads and exception types are not asserted.', '§6 C07'),
+ 'C08': ('programs-as-cases over a pool of cells, slices and builders with a snapshot invariant after every operation + exhaustive constructor grid (every length 0..1023 x plain/TvmBitarray) + derive-mutate grid + history-independence (same observation fresh / after a prefix program / rebuilt)',
+         'An interpreter executes generated operation sequences (derive by begin_parse/to_slice/from_cell/to_builder/copy/to_cell, consume and skip on slices, store into builders incl. after end_cell, to_boc under all option sets, order() with and without argument, hashing, repr, dictionary and TL-B parse attempts, VmStack/HashMap serialisation of caller-held values) and after EVERY operation requires every pooled cell to equal its creation snapshot (hash, bits, type, child hashes, two serialisations), every untouched slice/builder and every argument of a library call to be unchanged, order() to list exactly the distinct cells, and repeated observations to be identical and independent of earlier calls.',
+         'Snapshots are taken with the library itself (the property is about change, not about correctness of the values - that is C01-C05). Caller-side mutation of cell.bits/cell.refs or of the containers passed to a constructor is not asserted.', '§6 C08'),
+})
 NOT_YET = {}
 
 def main():
